@@ -28,7 +28,7 @@
 (***************************************************************************)
 EXTENDS OptRule, GoSlice
 
-CONSTANTS Tree,        \* "std" | "deep"
+CONSTANTS Tree,        \* "std" | "deep" | "par" (three leaves running in parallel in one super step)
           PU,          \* path universe: 0 tiny | 1 small | 2 full
           MaxStmts,    \* program length
           MaxNew,      \* number of "new" statements
@@ -39,12 +39,25 @@ CONSTANTS Tree,        \* "std" | "deep"
           MaxCallOpts, \* options per call
           CallWindow,  \* ... taken from the last CallWindow variables
           MinStmts,    \* calls are made once the program has MinStmts..MaxStmts statements
-          CopyFix
+          MinCallOpts, \* a call passes MinCallOpts..MaxCallOpts options
+          CallMode,    \* "subsets": any increasing list of variables (above) | "final": the one call that passes every option value
+                       \* no later statement derives from (what user code does with the options it has built)
+          SubKind,     \* what the nested graphs are built with: "graph" | "chain" | "workflow" (the harness builds them so)
+          CopyFix,
+          CbCopyFix,       \* TRUE = AppendHandlers as it stands (copies the inherited handler list); FALSE = seeded variant / old D4:
+                           \* append(cbm.handlers, designated...) in place
+          SubByComponent   \* seeded variant of extractOption: a node is taken for a nested graph iff its component is Graph
+                           \* (as coded: iff it has no option type, which holds for nested Chains and Workflows too)
 
 \* ------------------------------------------------------------------ the graph tree (a chain at every level)
-UU(id, path, graph, parent, ot) == [u |-> id, path |-> path, graph |-> graph, parent |-> parent, ot |-> ot]
+\* gk = component of a graph unit (Graph | Chain | Workflow); the top graph is always a plain Graph
+UU(id, path, graph, parent, ot) == [u |-> id, path |-> path, graph |-> graph, parent |-> parent, ot |-> ot,
+                                    gk |-> IF ~graph THEN "" ELSE IF parent = "" THEN "graph" ELSE SubKind]
 UnitSeq ==
-  IF Tree = "std"
+  IF Tree = "par"
+  THEN << UU("top", <<>>, TRUE, "", ""), UU("p1", <<"p1">>, FALSE, "top", "T1"), UU("p2", <<"p2">>, FALSE, "top", "T2"),
+          UU("p3", <<"p3">>, FALSE, "top", "T1") >>
+  ELSE IF Tree = "std"
   THEN << UU("top", <<>>, TRUE, "", ""), UU("a", <<"a">>, FALSE, "top", "T1"), UU("b", <<"b">>, FALSE, "top", "T2"),
           UU("c", <<"c">>, FALSE, "top", "none"), UU("sub", <<"sub">>, TRUE, "top", ""),
           UU("s1", <<"sub", "s1">>, FALSE, "sub", "T1"), UU("s2", <<"sub", "s2">>, FALSE, "sub", "T2") >>
@@ -55,7 +68,8 @@ UnitSet == Range(UnitSeq)
 Kids(g) == SelectSeq(UnitSeq, LAMBDA u : u.parent = g)          \* in chain order
 KeyOf(u) == u.path[Len(u.path)]
 PathU ==
-  IF Tree = "std"
+  IF Tree = "par" THEN (IF PU <= 1 THEN {<<"p1">>, <<"p2">>} ELSE {<<"p1">>, <<"p2">>, <<"p3">>, <<"zz">>})
+  ELSE IF Tree = "std"
   THEN (IF PU = 0 THEN {<<"a">>, <<"sub", "s1">>, <<"zz">>}
         ELSE IF PU = 1 THEN {<<"a">>, <<"sub">>, <<"sub", "s1">>, <<"zz">>}
         ELSE {<<"a">>, <<"b">>, <<"c">>, <<"sub">>, <<"sub", "s1">>, <<"sub", "s2">>, <<"zz">>, <<"sub", "zz">>, <<"a", "x">>, <<"sub", "s1", "x">>})
@@ -86,7 +100,8 @@ AddDes(from, ps) ==
   /\ UNCHANGED <<phase, calls, S>>
 
 IncSeqs(n, k) == {s \in [1..k -> {i \in 1..n : i > n - CallWindow}] : \A i \in 1..(k - 1) : s[i] < s[i + 1]}
-CallLists == UNION {IncSeqs(Len(prog), k) : k \in 1..MaxCallOpts}
+FinalVars == SelectSeq([i \in 1..Len(prog) |-> i], LAMBDA i : ~\E j \in 1..Len(prog) : prog[j].op = "des" /\ prog[j].from = i)
+CallLists == IF CallMode = "final" THEN {FinalVars} ELSE UNION {IncSeqs(Len(prog), k) : k \in MinCallOpts..MaxCallOpts}
 
 \* ------------------------------------------------------------------ routing, as coded
 \* an option as extractOption sees it at some graph level: [typ, id, paths]   (paths relative to that level)
@@ -115,7 +130,7 @@ RECURSIVE ExCommon(_, _, _, _)
 ExCommon(g, o, kids, m) ==
   IF kids = <<>> THEN m
   ELSE LET k == Head(kids) IN
-       ExCommon(g, o, Tail(kids), IF k.graph THEN Add(m, k.u, o) ELSE IF k.ot = o.typ THEN Add(m, k.u, o.id) ELSE m)
+       ExCommon(g, o, Tail(kids), IF k.graph /\ (~SubByComponent \/ k.gk = "graph") THEN Add(m, k.u, o) ELSE IF k.ot = o.typ THEN Add(m, k.u, o.id) ELSE m)
 RECURSIVE Extract(_, _, _)
 Extract(g, os, acc) ==
   IF os = <<>> \/ acc.err THEN acc
@@ -128,13 +143,38 @@ NodeCbs(os, k) == {os[j].id : j \in {x \in 1..Len(os) : os[x].typ = "cb" /\ \E i
 RECURSIVE SetToSeq(_)
 SetToSeq(T) == IF T = {} THEN <<>> ELSE LET x == CHOOSE y \in T : TRUE IN <<x>> \o SetToSeq(T \ {x})
 
+\* ---- handler lists of the nodes of ONE super step that run in parallel (tree "par"), as Go slices (16-byte elements):
+\*   initGraphCallbacks: cbs = append(cbs, opt.handler...) once per undesignated callbacks option (1 -> 2 -> 4 -> 8 ...), kept as is by
+\*   InitCallbacks; every task: initNodeCallbacks -> AppendHandlers(ctx, designated handlers of the key) and at once the start
+\*   event; the bodies overlap (all nodes are initialised before any ends), then the end events read the lists again.
+\* A node's observed handler set = what its list holds at its start  \cup  what it holds at its end.
+\* Result: function  kid id -> set of handler ids.   (No global handlers here: On's own append is Callbacks.tla's business.)
+ParInit(os, kids) ==
+  LET und == SelectSeq(os, LAMBDA o : o.typ = "cb" /\ Len(o.paths) = 0)
+      g0  == AppendEach(EmptyHeap, NilSlice, [j \in 1..Len(und) |-> <<und[j].id>>], 1, 16)
+  IN [h |-> g0.h, na |-> g0.na, ps |-> g0.s, hdr |-> <<>>, sv |-> <<>>]
+RECURSIVE ParInits(_, _, _)
+ParInits(os, kids, acc) ==
+  IF kids = <<>> THEN acc
+  ELSE LET u   == Head(kids)
+           des == SelectSeq(os, LAMBDA o : o.typ = "cb" /\ \E i \in 1..Len(o.paths) : o.paths[i] = <<KeyOf(u)>>)
+           c1  == AppendEach(acc.h, NilSlice, [j \in 1..Len(des) |-> <<des[j].id>>], acc.na, 16)
+           add == View(c1.h, c1.s)
+           r   == IF acc.ps.len = 0 THEN c1            \* no manager in the context: InitCallbacks(ctx, info, cbs...)
+                  ELSE IF CbCopyFix THEN CopyAppend(c1.h, acc.ps, add, c1.na) ELSE GoAppend(c1.h, acc.ps, add, c1.na, 16)
+       IN ParInits(os, Tail(kids), [acc EXCEPT !.h = r.h, !.na = r.na, !.hdr = @ @@ (u.u :> r.s),
+                                               !.sv = @ @@ (u.u :> Range(View(r.h, r.s)))])
+ParCbs(os, kids) ==
+  LET f == ParInits(os, kids, ParInit(os, kids)) IN
+  [x \in DOMAIN f.hdr |-> f.sv[x] \cup Range(View(f.h, f.hdr[x]))]
+
 \* run of graph unit g in call k with options os (relative to g) and inherited handlers inh: [err, lines]
 RECURSIVE RunG(_, _, _, _)
 RECURSIVE RunKids(_, _, _, _, _, _)
 RunKids(k, g, os, inh, kids, ex) ==
   IF kids = <<>> THEN [err |-> FALSE, lines |-> <<>>]
   ELSE LET u == Head(kids)
-           cbs == inh \cup NodeCbs(os, KeyOf(u))
+           cbs == IF Tree = "par" /\ g = "top" THEN ParCbs(os, Kids(g))[u.u] ELSE inh \cup NodeCbs(os, KeyOf(u))
        IN IF u.graph
           THEN LET r == RunG(k, u.u, ex.m[u.u], cbs) IN
                IF r.err THEN r
